@@ -39,7 +39,7 @@ REQUIRED_MONITORS = ["F-matches-own-geometry", "DF-matches-own-geometry", "invF-
                      "divergence-theorem-mesh", "affine-equals-isoparametric", "subset-spellings-agree",
                      "facetbasis-normals-dx"]
 REQUIRED_REACH = ["per-cell-layout", "tind-none", "tind-permuted", "tind-repeated", "curved-mesh", "mirrored-mesh",
-                  "interior-facets", "newton-inverse-nontrivial", "affine-flag-flipped"]
+                  "interior-facets", "newton-inverse-nontrivial", "affine-flag-flipped", "many-points-per-cell"]
 
 
 class OwnGeom:
@@ -140,6 +140,26 @@ def cell_maps(ctx, k, kind):
                 ctx.reached("newton-inverse-nontrivial")
             if unequal:
                 ctx.nontrivial(mname, cname, "cell-maps", "percell" if percell else "shared", sname, geom)
+    # many points per cell on a small anisotropic copy of the mesh (as a high-order facet rule produces them): the
+    # inverse map must still return, and return the points
+    if kind in ("quad", "hex") or mc.order == 2:
+        from dataclasses import replace
+        S = np.array([2.0 ** -6, 2.0 ** -6, 0.5][:d])[:, None]
+        ms = replace(mesh, doflocs=np.asarray(mesh.doflocs) * S + 0.75)
+        mps = ms.mapping()
+        Xm = GEO.random_ref_points(rng, kind, 160)
+        cells = np.arange(min(nt, 6))
+        xm = mps.F(Xm, cells)
+        try:
+            Xb = mps.invF(xm, cells)
+            ctx.close("invF-F-identity", Xb, np.broadcast_to(Xm[:, None, :], xm.shape), rtol=1e-8, scale=1.0,
+                      mech=f"invF-many-points:{mname}:{kind}", mesh=cname, geom=geom, points=160)
+        except Exception as e:
+            if "converge" not in str(e):
+                raise
+            ctx.check("invF-F-identity", False, mech="newton-inverse-does-not-converge-with-many-points-per-cell",
+                      mesh=cname, geom=geom, points=160, error=str(e))
+        ctx.reached("many-points-per-cell")
     # F sends reference nodes to the mesh's nodes
     Xv = GEO.ref_vertices(kind)
     xv = mapping.F(Xv)
